@@ -43,7 +43,7 @@ ASSUMPTIONS = ['every series has the length of the span (C09 invariant)',
 META = {
     "text": "Reflected probe table (Generated.reindexProbes: what the imported reindex puts into a new period, per dtype of a 20-dtype catalogue) with theorems quantifying over it: the model's if/elif branch function equals the code's for bool / every int and uint width / timedelta64 / <U / float64, and the code's defaults equal the property's table (False, 0, NaN, '') for every bool/int/uint/float/complex/<U dtype. Theorems for every object (any variables, dtypes, values), every old/new span (permuted, disjoint, repeated labels; first occurrence = list.index) and every fill_value / keyword fills / strict combination: each new position holds the old value at the first occurrence of its label, else coerce(dtype, keyword fill if given else fill_value) with None -> NaN/0/False/''; models default status to '-' and iterations to -1 unless overridden; names, order, dtypes, strict flag and all other attributes carry over; unknown fill keywords are rejected with KeyError exactly under effective strictness (strict=None -> the object's flag); reindex succeeds on well-formed objects. The model is tied to VectorContainer.reindex / BaseModel.reindex by exact comparison of the full reindexed state (values, dtypes, order, exception class) on all generated span pairs.",
     "design_ref": "DESIGN.md §5 M6, §6 C12, §7 row 19",
-    "note": "Open findings: reindex-object-elements-shared (elements of object-dtype series - Trace objects, lists - are shared by reference between result and original), reindex-bytes-default (bytes series default b'Non'). Partial: 'original unchanged / shares nothing' is not a theorem (the functional model has no aliasing; heap model belongs to C11) - checked by the oracle on the real code (ids, np.shares_memory, mutation probes). pandas get_loc / in are inputs for pandas spans; the pandas mixin (Series.reindex) is compared with the specification by the oracle only. Trusted: Lean kernel, axioms propext/Classical.choice/Quot.sound, the correspondence harness. The mixin with default arguments is held by the oracle to the same dtype default table as the base class (NaN, 0, False, '' - proved for the base class in fill_default_table; the mixin itself is not modelled). Former findings pandas-mixin-int/bool/str-default (fixed in /repo 7a4b423) and reindex-same-span-object-shared (fixed 4b4abc7) keep their oracle keys, so a regression is a new VIOLATION.",
+    "note": "Former findings reindex-object-elements-shared (fixed in /repo 9d7efdc) and reindex-bytes-default (fixed 9692991) keep their oracle keys: a return of either defect is a new VIOLATION. Partial: 'original unchanged / shares nothing' is not a theorem (the functional model has no aliasing; heap model belongs to C11) - checked by the oracle on the real code (ids, np.shares_memory, mutation probes). pandas get_loc / in are inputs for pandas spans; the pandas mixin (Series.reindex) is compared with the specification by the oracle only. Trusted: Lean kernel, axioms propext/Classical.choice/Quot.sound, the correspondence harness. The mixin with default arguments is held by the oracle to the same dtype default table as the base class (NaN, 0, False, '' - proved for the base class in fill_default_table; the mixin itself is not modelled). Former findings pandas-mixin-int/bool/str-default (fixed in /repo 7a4b423) and reindex-same-span-object-shared (fixed 4b4abc7) keep their oracle keys, so a regression is a new VIOLATION.",
     "technique": "Lean 4 proof (induction over the copy loop and the variable list) + exhaustive differential correspondence + property oracle with sharing probes"
 }
 
@@ -578,7 +578,7 @@ def oracle(case, obj, before, old, new, outcome, rep, pandas_mixin=False):
                     bc.violate(rep, pre + 'reindex-overlap-value', f'{nm}[{lab!r}] = {a1[i]!r}, old value {a0[occ[0]]!r}', case)
                     break
             elif judged and not same_value(a1[i], fill):
-                key = 'reindex-bytes-default' if (a0.dtype.kind == 'S' and nm not in kw and kw.get('fill_value') is None) \
+                key = 'reindex-bytes-default' if (a0.dtype.kind == 'S' and kw.get(nm) is None and kw.get('fill_value') is None) \
                     else 'reindex-fill-value'
                 if pandas_mixin:
                     key = {'i': 'pandas-mixin-int-default', 'b': 'pandas-mixin-bool-default',
